@@ -29,6 +29,26 @@ Proof.
   destruct SI' as [_ IL']. apply In_oget; [apply (li_nodup _ _ (IL' r l' H1))|auto].
 Qed.
 
+(* the same along every history with bounded merges elsewhere and re-opened logs ([owf]): an operation that
+   is not itself a bounded merge never removes or replaces an entry of any replica - a causally open,
+   re-opened or truncated log is append-only too *)
+Theorem C05_entries_never_vanish_in_every_history ops o r l :
+  owf (ops ++ [o]) -> (match o with OJoin _ _ size => size < 0 | _ => True end) ->
+  nth_error (s_logs (run ops)) r = Some l ->
+  exists l', nth_error (s_logs (run (ops ++ [o]))) r = Some l' /\
+             (forall k v, In (k, v) (l_entries l) -> In (k, v) (l_entries l')) /\
+             (length (l_entries l) <= length (l_entries l'))%nat.
+Proof.
+  intros W Hb L.
+  assert (W1 : owf ops /\ owf_step (run ops) o).
+  { clear L Hb. unfold owf, run in *. revert W. generalize empty_sys. induction ops as [|x xs IH]; intros s W; cbn [app owf_from run_from fold_left] in *.
+    - destruct W as [W _]. split; [exact Logic.I|exact W].
+    - destruct W as [Wx W]. destruct (IH _ W) as [A B]. split; [split; assumption|exact B]. }
+  destruct W1 as [W1 W2].
+  unfold run. rewrite run_from_app. cbn [run_from fold_left].
+  exact (ostep_entries_monotone (run ops) o r l (osinv_run ops W1) W2 Hb L).
+Qed.
+
 (* merging ANY other log object - no assumption on it: forged entries, entries filed under keys that
    are not their hashes, arbitrary heads - into a replica of any history never removes or replaces an
    entry the replica holds (the merge may fail or add entries, it never touches held ones) *)
@@ -130,3 +150,4 @@ Print Assumptions C05_values_subsequence.
 Print Assumptions C05_nonvacuous.
 Print Assumptions C05_merge_of_any_log_keeps_held_entries_reopened.
 Print Assumptions C05_opened_at_earlier_head_refuted.
+Print Assumptions C05_entries_never_vanish_in_every_history.
